@@ -16,7 +16,7 @@ RULE = ('random: G_lang x G_model (and G_model over the shipped coreLang) (typed
         '3 assets, transitive closure over all 2^9 link relations on 3 assets, subtype filter over all '
         'type assignments. Oracle: independent set-semantics evaluator over the case description; '
         'children compared as sets of (asset, step), closure+ <= result <= closure* for transitive; '
-        'parents must be the converse of children. A case is non-trivial when a reaches expression with a '
+        'parents must be the converse of children; clause edited-models generates a graph, edits the model through the API (remove association / member / asset) and checks the graph generated afterwards against the edited description. A case is non-trivial when a reaches expression with a '
         'set operator / subtype filter / transitive step / variable is evaluated on an empty operand, a '
         'shared element, several sources or a cycle/self-link (events recorded by the reference '
         'evaluator); distinctness by hash of the canonical case description.')
@@ -386,6 +386,110 @@ def _enum_subtype(tier):
                     'links': links, 'attackers': []}}
 
 
+def check_edited(case) -> Outcome:
+    """generate, edit the model through the API, generate again: the second graph must be the graph of the
+    edited model (a neighbour cache that is not invalidated would be exposed)"""
+    from maltoolbox.attackgraph import AttackGraph
+    out = Outcome()
+    spec, mdesc = case['spec'], case['model']
+    lg, model, objs, g, err, msg = generate_graph(spec, mdesc)
+    if err:
+        out.classes.append('skipped:' + err)
+        return out
+    # apply the edits to the live model and to the description
+    links = [dict(ln, left=list(ln['left']), right=list(ln['right'])) for ln in mdesc['links']]
+    assoc_objs = list(model.associations)
+    alive = [True] * len(links)
+    removed_assets = set()
+    try:
+        for kind, a, b in case['edits']:
+            live_links = [k for k in range(len(links)) if alive[k]]
+            if kind == 'remove_link' and live_links:
+                k = live_links[a % len(live_links)]
+                model.remove_association(assoc_objs[k])
+                alive[k] = False
+            elif kind == 'remove_member' and live_links:
+                k = live_links[a % len(live_links)]
+                members = links[k]['left'] + links[k]['right']
+                x = members[b % len(members)]
+                model.remove_asset_from_association(objs[x], assoc_objs[k])
+                links[k]['left'] = [m for m in links[k]['left'] if m != x]
+                links[k]['right'] = [m for m in links[k]['right'] if m != x]
+                if not links[k]['left'] or not links[k]['right']:
+                    alive[k] = False
+            elif kind == 'remove_asset' and len(removed_assets) < len(objs) - 1:
+                cands = [i for i in range(len(objs)) if i not in removed_assets]
+                x = cands[a % len(cands)]
+                model.remove_asset(objs[x])
+                removed_assets.add(x)
+                for k in live_links:
+                    links[k]['left'] = [m for m in links[k]['left'] if m != x]
+                    links[k]['right'] = [m for m in links[k]['right'] if m != x]
+                    if not links[k]['left'] or not links[k]['right']:
+                        alive[k] = False
+    except Exception as e:
+        out.classes.append('skipped:edit-raises:' + type(e).__name__)   # C05 reports problems of the edits
+        return out
+    # the edited model as a description (asset indexes re-mapped)
+    keep = [i for i in range(len(objs)) if i not in removed_assets]
+    remap = {old: new for new, old in enumerate(keep)}
+    m2 = {'assets': [mdesc['assets'][i] for i in keep], 'attackers': [],
+          'links': [{'assoc': links[k]['assoc'], 'left': [remap[x] for x in links[k]['left']],
+                     'right': [remap[x] for x in links[k]['right']]} for k in range(len(links)) if alive[k]]}
+    L = Lang(spec)
+    am = AbstractModel(L, [a['type'] for a in m2['assets']], m2['links'])
+    try:
+        with _Guard(len(objs)):
+            g2 = AttackGraph(lg, model)
+    except (BudgetExceeded, RecursionError, MemoryError) as e:
+        out.add('edited:generation-does-not-terminate', type(e).__name__)
+        return out
+    except Exception as e:
+        out.add('edited:generation-raises', f'{type(e).__name__}: {e}')
+        return out
+    names = [str(objs[i].name) for i in keep]
+    idx = {n: k for k, n in enumerate(names)}
+    for k, a in enumerate(m2['assets']):
+        for sname, sdef in L.fold(a['type']).items():
+            node = g2.get_node_by_full_name(f'{names[k]}:{sname}')
+            if node is None:
+                out.add('edited:node-missing', f'{names[k]}:{sname}')
+                continue
+            got = {(idx.get(str(c.asset.name)), c.name) for c in node.children}
+            cands = [set(), set(), set(), set()]
+            for e in (sdef['reaches']['stepExpressions'] if sdef['reaches'] else []):
+                for r, (res, nm) in enumerate(exact_results(am, frozenset([k]), e)):
+                    cands[r] |= {(x, nm) for x in res}
+            if not any(got == c for c in cands):
+                ok = False
+                if not any(has_difference(L, e) for e in (sdef['reaches']['stepExpressions'] if sdef['reaches'] else [])):
+                    lo, up = set(), set()
+                    for e in sdef['reaches']['stepExpressions']:
+                        l, u, nm = evaluate(am, frozenset([k]), e)
+                        lo |= {(x, nm) for x in l}
+                        up |= {(x, nm) for x in u}
+                    ok = lo <= got <= up
+                if not ok:
+                    out.add('edited:children-differ', f'{names[k]}:{sname}: {sorted(got, key=str)} not among {[sorted(c) for c in cands]}'[:500])
+    out.nontrivial = bool(case['edits']) and bool(mdesc['links'])
+    out.classes += sorted({'edit:' + e[0] for e in case['edits']})
+    return out
+
+
+def _edited_cases():
+    from hypothesis import strategies as st
+
+    @st.composite
+    def cases(draw):
+        c = draw(lang_and_model({'max_assets': 4, 'max_expr_depth': 2},
+                                {'max_assets': 5, 'attackers': False, 'defenses': False, 'min_assets': 2}))
+        small = st.integers(0, 9)
+        c['edits'] = draw(st.lists(st.tuples(st.sampled_from(['remove_link', 'remove_member', 'remove_member', 'remove_asset']),
+                                             small, small).map(list), min_size=1, max_size=3))
+        return c
+    return cases()
+
+
 def check_corelang(case) -> Outcome:
     spec = shipped_spec()
     if spec is None:
@@ -404,6 +508,8 @@ CLAUSES = [
            strategy=lambda: lang_and_model({'max_assets': 5, 'max_expr_depth': 3},
                                            {'max_assets': 6, 'attackers': False, 'defenses': False}),
            budget={'quick': 8000, 'thorough': 80000}, memory_is_violation=True),
+    Clause('edited-models', check_edited, kind='random', strategy=lambda: _edited_cases(),
+           budget={'quick': 1600, 'thorough': 16000}),
     Clause('corelang-models', check_corelang, kind='random',
            strategy=lambda: corelang_models(max_assets=7, attackers=False, defenses=False).map(lambda m: {'model': m}),
            budget={'quick': 640, 'thorough': 8000}),
